@@ -1,2 +1,7 @@
 import Ezpz.Model.Kernels
 import Ezpz.Model.Solve
+import Ezpz.Proofs.Newton
+import Ezpz.Proofs.Priority
+import Ezpz.Proofs.SolveInner
+import Ezpz.Proofs.Report
+import Ezpz.Properties.C03
